@@ -13,7 +13,11 @@
    A call carries at most one *fault plan* f = [k, at, n]: the n-th access of item `at` made by this call
        k = "crash"      the process dies immediately before the write (the write is lost)
        k = "crashafter" the process dies immediately after the write
-       k = "fail"       the write returns an error
+       k = "fail"       the write returns an error (that one write: a second write of the item by the same call succeeds)
+       k = "failall"    EVERY write (Set and Delete) of item `at` returns an error, for the whole call and for the
+                        n - 1 public calls that follow it (n <= MaxPersist; a full disk, a store that went read-only):
+                        the fault PERSISTS, also over a restart; only the two protection records can be hit this way.
+                        While it lasts (`broken`) the following calls carry no plan of their own.
        k = "rerr"       the read returns an error
        k = "rmiss"      the read reports "not found"
        k = "rempty"     the read returns an empty value (an undecodable record; named deviation, see Read)
@@ -21,6 +25,18 @@
    RemoveShare (its three deletes and the wallet save) and Sign (record update, then signature release).
    A crash is followed by a restart: a new signer object on the surviving database (mem := db).
    Only plans that actually fire are taken (no duplicate edges).
+
+   What the code does when the write of a protection record fails (transcribed):
+     storage.SaveHighestAttestation / SaveHighestProposal   one db.Set, its error is returned as it is
+     NormalProtection.UpdateHighestAttestation / -Proposal    wrap and return the error
+     SimpleSigner.SignBeaconAttestation / SignBlock (step 5)  return the error BEFORE the signing root is computed:
+                                                              no signature leaves the signer
+     ekm.updateHighestAttestation / updateHighestProposal     wrap and return; BumpSlashingProtection returns;
+                                                              AddShare returns before saveShare (no account)
+     ekm.RemoveShare                                          returns at the first failing delete
+   Nothing is retried, so in the code as written "fail" and "failall" with n = 1 hit the same single write; they
+   differ as soon as a write is attempted again: by a later call (n > 1), or inside the call by
+   Weaken = "saveErrSwallowed" (the Set is tried twice and the error of the last attempt is dropped).
 
    Signing requests of one share are serialised by SimpleSigner's per-account lock (check, update and
    signature under one lock), AddShare / RemoveShare hold the key manager's wallet lock exclusively, so the
@@ -39,9 +55,10 @@ CONSTANTS SPE,        \* slots per epoch of the virtual beacon network
           MaxSlot,    \* the clock runs from SPE (first slot of epoch 1) to MaxSlot
           MaxGen,     \* at most MaxGen account records are ever created
           MaxFaults,  \* fault budget of a behaviour
+          MaxPersist, \* a persistent write fault ("failall") lasts for 1..MaxPersist consecutive public calls
           Variants,   \* 1..Variants distinguishes different data with equal (source,target) / equal slot
           Kinds,      \* subset of {"att", "blk"}: which duties are signed
-          FaultKinds, \* subset of {"crash", "crashafter", "fail", "rerr", "rmiss", "rempty"}
+          FaultKinds, \* subset of {"crash", "crashafter", "fail", "failall", "rerr", "rmiss", "rempty"}
           Weaken
 
 VARIABLES clock,      \* current slot
@@ -50,15 +67,17 @@ VARIABLES clock,      \* current slot
           signedBlk,  \* released block signatures <<slot, variant>>                  (history, never reset)
           pend,       \* requests between check and update (only with Weaken = "noSignLock")
           nfaults,
+          broken,     \* the persistent write fault in force: [at, left] - writes of `at` fail for `left` more calls
           act         \* the call just made: name, arguments, fault plan, result, and `post` = storage after the call
-vars == <<clock, st, signedAtt, signedBlk, pend, nfaults, act>>
-view == <<clock, st, signedAtt, signedBlk, pend, nfaults>>
+vars == <<clock, st, signedAtt, signedBlk, pend, nfaults, broken, act>>
+view == <<clock, st, signedAtt, signedBlk, pend, nfaults, broken>>
 
 Ep(slot) == slot \div SPE
 MaxEpoch == Ep(MaxSlot)
 NoAtt == [f |-> FALSE, s |-> 0, t |-> 0]
 NoProp == [f |-> FALSE, v |-> 0]
 NoFault == [k |-> "none", at |-> "-", n |-> 0]
+NoBroken == [at |-> "-", left |-> 0]
 Max(a, b) == IF a < b THEN b ELSE a
 
 Usable(s0) == s0.mem # 0 /\ s0.mem \in s0.accs            \* wallet.AccountByPublicKey succeeds
@@ -68,13 +87,28 @@ Usable(s0) == s0.mem # 0 /\ s0.mem \in s0.accs            \* wallet.AccountByPub
    Bind(e, LAMBDA x : body) is LET x == e IN body with the second cost model. *)
 Bind(v, F(_)) == F(v)
 
-(* one database access under a fault plan: [st, out, hit]; out in "ok" | "err" | "crash" *)
-Write(s0, f, item, new) ==
-    IF f.at = item /\ f.n = 1 /\ f.k \in {"crash", "crashafter", "fail"}
+(* one database access under a fault plan: [st, out, hit]; out in "ok" | "err" | "crash".
+   nth = how many times this call has written the item, this write included *)
+WriteN(s0, f, item, new, nth) ==
+    IF f.at = item /\ f.k = "failall" THEN [st |-> s0, out |-> "err", hit |-> TRUE]
+    ELSE IF f.at = item /\ f.n = nth /\ f.k \in {"crash", "crashafter", "fail"}
     THEN CASE f.k = "crash"      -> [st |-> s0,  out |-> "crash", hit |-> TRUE]
            [] f.k = "crashafter" -> [st |-> new, out |-> "crash", hit |-> TRUE]
            [] OTHER              -> [st |-> s0,  out |-> "err",   hit |-> TRUE]
     ELSE [st |-> new, out |-> "ok", hit |-> FALSE]
+Write(s0, f, item, new) == WriteN(s0, f, item, new, 1)
+
+(* storage.SaveHighestAttestation / SaveHighestProposal: ONE db.Set whose error is the result.
+   Weaken = "saveErrSwallowed": the Set is attempted twice and the error of the second attempt is lost (a retry
+   loop whose `err :=` shadows the variable that is returned, an errors.Wrap of the wrong variable, a bare log
+   line): a write fault that outlasts the retry leaves the record as it was and the caller is told "saved". *)
+Save(s0, f, item, new) ==
+    IF Weaken # "saveErrSwallowed" THEN Write(s0, f, item, new)
+    ELSE Bind(WriteN(s0, f, item, new, 1), LAMBDA w1 :
+         IF w1.out # "err" THEN w1
+         ELSE Bind(WriteN(s0, f, item, new, 2), LAMBDA w2 :
+              IF w2.out = "err" THEN [st |-> s0, out |-> "ok", hit |-> TRUE]
+              ELSE [st |-> w2.st, out |-> w2.out, hit |-> TRUE]))
 
 (* "rempty": the stored value is empty.  Named deviation = the code BEFORE fix 25c7aec2a: RetrieveHighestAttestation
    returned (nil, found, nil) and every caller treats nil like a missing record; RetrieveHighestProposal returned
@@ -104,7 +138,7 @@ BumpAtt(s0, f, c) ==
     ELSE IF /\ Weaken # "bumpOverwritesDown"
             /\ rd.rec.f /\ (rd.rec.s >= MinAtt(c).s \/ rd.rec.t >= MinAtt(c).t)
          THEN Done(s0, "ok", rd.hit)                          \* the existing record is kept
-         ELSE Bind(Write(s0, f, "att", [s0 EXCEPT !.att = BumpRec(rd.rec, c)]), LAMBDA w :
+         ELSE Bind(Save(s0, f, "att", [s0 EXCEPT !.att = BumpRec(rd.rec, c)]), LAMBDA w :
               Done(w.st, w.out, w.hit \/ rd.hit)))
 
 (* ekm.updateHighestProposal(pk, slot) *)
@@ -114,7 +148,7 @@ BumpProp(s0, f, c) ==
     ELSE IF /\ Weaken # "bumpOverwritesDown"
             /\ rd.rec.f /\ rd.rec.v # 0 /\ rd.rec.v >= c
          THEN Done(s0, "ok", rd.hit)
-         ELSE Bind(Write(s0, f, "prop", [s0 EXCEPT !.prop = [f |-> TRUE, v |-> c]]), LAMBDA w :
+         ELSE Bind(Save(s0, f, "prop", [s0 EXCEPT !.prop = [f |-> TRUE, v |-> c]]), LAMBDA w :
               Done(w.st, w.out, w.hit \/ rd.hit)))
 
 (* ekm.BumpSlashingProtection(pk): attestation record first, proposal record second *)
@@ -173,7 +207,7 @@ AttUpdate(s0, f, s, t) ==
     Bind(ReadAtt(s0, f, 2), LAMBDA r2 :
     IF r2.out = "err" THEN Done(s0, "err", TRUE)
     ELSE IF Weaken = "noUpdate" \/ (r2.rec.f /\ AttNew(r2.rec, s, t) = r2.rec) THEN Done(s0, "ok", r2.hit)
-    ELSE Bind(Write(s0, f, "att", [s0 EXCEPT !.att = AttNew(r2.rec, s, t)]), LAMBDA w :
+    ELSE Bind(Save(s0, f, "att", [s0 EXCEPT !.att = AttNew(r2.rec, s, t)]), LAMBDA w :
          Done(w.st, w.out, w.hit \/ r2.hit)))
 
 (* steps 1, 4, 5, 6: [st, out, hit, rel]; out in "signed" | "refused" | "crash"; rel = signature released *)
@@ -202,7 +236,7 @@ BlkUpdate(s0, f, slot) ==
     Bind(ReadProp(s0, f, 2), LAMBDA r2 :
     IF r2.out = "err" THEN Done(s0, "err", TRUE)
     ELSE IF Weaken # "noUpdate" /\ (~r2.rec.f \/ r2.rec.v < slot)
-         THEN Bind(Write(s0, f, "prop", [s0 EXCEPT !.prop = [f |-> TRUE, v |-> slot]]), LAMBDA w :
+         THEN Bind(Save(s0, f, "prop", [s0 EXCEPT !.prop = [f |-> TRUE, v |-> slot]]), LAMBDA w :
               Done(w.st, w.out, w.hit \/ r2.hit))
          ELSE Done(s0, "ok", r2.hit))
 
@@ -216,62 +250,71 @@ SignBlkProg(s0, f, slot) ==
 Faults(items, reads) ==
     {[k |-> k, at |-> i, n |-> 1] : k \in FaultKinds \cap {"crash", "crashafter", "fail"}, i \in items}
     \cup {[k |-> k, at |-> r[1], n |-> r[2]] : k \in FaultKinds \cap {"rerr", "rmiss", "rempty"}, r \in reads}
+    \cup {[k |-> k, at |-> i, n |-> n] : k \in FaultKinds \cap {"failall"}, i \in items \cap {"att", "prop"}, n \in 1..MaxPersist}
 BumpFaults   == Faults({"att", "prop", "acc", "wal"}, {<<"att", 1>>, <<"prop", 1>>})     \* AddShare, Reactivate
 RemoveFaults == Faults({"att", "prop", "acc", "wal"}, {})
 AttFaults    == Faults({"att"}, {<<"att", 1>>, <<"att", 2>>})
 BlkFaults    == Faults({"prop"}, {<<"prop", 1>>, <<"prop", 2>>})
-Plans(F) == IF nfaults < MaxFaults THEN F \cup {NoFault} ELSE {NoFault}
+Plans(F) == IF nfaults < MaxFaults /\ broken.left = 0 THEN F \cup {NoFault} ELSE {NoFault}
+
+(* the plan a call runs under: its own, or the persistent write fault left by an earlier call *)
+Eff(f) == IF broken.left > 0 THEN [k |-> "failall", at |-> broken.at, n |-> broken.left] ELSE f
+Broken(f) == IF broken.left > 1 THEN [broken EXCEPT !.left = @ - 1]
+             ELSE IF broken.left = 0 /\ f.k = "failall" /\ f.n > 1 THEN [at |-> f.at, left |-> f.n - 1]
+             ELSE NoBroken
 
 (* `act'` is computed first (the program runs once); the other conjuncts read it.  Only plans that fired are
    taken.  A crash restarts the process: the wallet object is re-read from the database. *)
 Post(r) == IF r.out = "crash" THEN [r.st EXCEPT !.mem = r.st.db] ELSE r.st
-Call(name, f, r) == [name |-> name, fault |-> f, res |-> r.out, hit |-> r.hit, post |-> Post(r)]
-Took(f) == /\ (f = NoFault \/ act'.hit)
+Call(name, f, r) == [name |-> name, fault |-> f, eff |-> Eff(f), res |-> r.out, hit |-> r.hit, post |-> Post(r)]
+Took(f) == /\ (f = NoFault \/ (act'.hit /\ broken.left = 0))
            /\ st' = act'.post
+           /\ broken' = Broken(f)
            /\ nfaults' = IF f = NoFault THEN nfaults ELSE nfaults + 1
 
 Init == /\ clock = SPE
         /\ st = [att |-> NoAtt, prop |-> NoProp, accs |-> {}, db |-> 0, mem |-> 0, gen |-> 1]
-        /\ signedAtt = {} /\ signedBlk = {} /\ pend = {} /\ nfaults = 0 /\ act = [name |-> "init"]
+        /\ signedAtt = {} /\ signedBlk = {} /\ pend = {} /\ nfaults = 0 /\ broken = NoBroken /\ act = [name |-> "init"]
 
 Tick == /\ clock < MaxSlot /\ clock' = clock + 1 /\ act' = [name |-> "Tick", clock |-> clock + 1]
-        /\ UNCHANGED <<st, signedAtt, signedBlk, pend, nfaults>>
+        /\ UNCHANGED <<st, signedAtt, signedBlk, pend, nfaults, broken>>
 
 AddShare(f) ==
     /\ pend = {} /\ (Usable(st) \/ st.gen <= MaxGen)
-    /\ act' = Bind(AddProg(st, f), LAMBDA r : Call("AddShare", f, r))
+    /\ act' = Bind(AddProg(st, Eff(f)), LAMBDA r : Call("AddShare", f, r))
     /\ Took(f)
     /\ UNCHANGED <<clock, signedAtt, signedBlk, pend>>
 
 RemoveShare(f) ==
     /\ pend = {}
-    /\ act' = Bind(RemoveProg(st, f), LAMBDA r : Call("RemoveShare", f, r))
+    /\ act' = Bind(RemoveProg(st, Eff(f)), LAMBDA r : Call("RemoveShare", f, r))
     /\ Took(f)
     /\ UNCHANGED <<clock, signedAtt, signedBlk, pend>>
 
 (* cluster reactivated: eventhandler calls BumpSlashingProtection for every share of the operator *)
 Reactivate(f) ==
     /\ pend = {}
-    /\ act' = Bind(Bump(st, f, BumpClock), LAMBDA r : Call("Reactivate", f, r))
+    /\ act' = Bind(Bump(st, Eff(f), BumpClock), LAMBDA r : Call("Reactivate", f, r))
     /\ Took(f)
     /\ UNCHANGED <<clock, signedAtt, signedBlk, pend>>
 
-(* the node is stopped and started again (no call in flight) *)
+(* the node is stopped and started again (no call in flight); a persistent write fault is a fault of the store,
+   not of the process: it is still there afterwards *)
 Restart ==
     /\ pend' = {} /\ st' = [st EXCEPT !.mem = st.db] /\ act' = [name |-> "Restart"]
-    /\ UNCHANGED <<clock, signedAtt, signedBlk, nfaults>>
+    /\ UNCHANGED <<clock, signedAtt, signedBlk, nfaults, broken>>
 
 SignAtt(s, t, d, f) ==
-    /\ act' = Bind(SignAttProg(st, f, s, t), LAMBDA r :
-                  [name |-> "SignAtt", s |-> s, t |-> t, d |-> d, fault |-> f, res |-> r.out, rel |-> r.rel,
+    /\ act' = Bind(SignAttProg(st, Eff(f), s, t), LAMBDA r :
+                  [name |-> "SignAtt", s |-> s, t |-> t, d |-> d, fault |-> f, eff |-> Eff(f), res |-> r.out, rel |-> r.rel,
                    hit |-> r.hit, post |-> Post(r)])
     /\ Took(f)
     /\ signedAtt' = IF act'.rel THEN signedAtt \cup {<<s, t, d>>} ELSE signedAtt
     /\ UNCHANGED <<clock, signedBlk, pend>>
 
 SignBlk(slot, d, f) ==
-    /\ act' = Bind(SignBlkProg(st, f, slot), LAMBDA r :
-                  [name |-> "SignBlk", slot |-> slot, d |-> d, fault |-> f, res |-> r.out, rel |-> r.rel,
+    /\ act' = Bind(SignBlkProg(st, Eff(f), slot), LAMBDA r :
+                  [name |-> "SignBlk", slot |-> slot, d |-> d, fault |-> f, eff |-> Eff(f), res |-> r.out, rel |-> r.rel,
                    hit |-> r.hit, post |-> Post(r)])
     /\ Took(f)
     /\ signedBlk' = IF act'.rel THEN signedBlk \cup {<<slot, d>>} ELSE signedBlk
@@ -283,7 +326,7 @@ SignCheck(s, t, d) ==
     /\ act' = [name |-> "SignCheck", s |-> s, t |-> t, d |-> d,
                res |-> IF Usable(st) /\ AttCheck(st, NoFault, s, t).out = "pass" THEN "pass" ELSE "refused"]
     /\ pend' = IF act'.res = "pass" THEN pend \cup {[s |-> s, t |-> t, d |-> d]} ELSE pend
-    /\ UNCHANGED <<clock, st, signedAtt, signedBlk, nfaults>>
+    /\ UNCHANGED <<clock, st, signedAtt, signedBlk, nfaults, broken>>
 
 SignCommit(p) ==
     /\ act' = [name |-> "SignCommit", s |-> p.s, t |-> p.t, d |-> p.d, res |-> "signed",
@@ -291,7 +334,7 @@ SignCommit(p) ==
     /\ st' = act'.post
     /\ signedAtt' = signedAtt \cup {<<p.s, p.t, p.d>>}
     /\ pend' = pend \ {p}
-    /\ UNCHANGED <<clock, signedBlk, nfaults>>
+    /\ UNCHANGED <<clock, signedBlk, nfaults, broken>>
 
 (* environment assumption: targets and slots are never beyond the clock (as duties are) *)
 Next == \/ Tick \/ Restart
@@ -330,5 +373,6 @@ TypeOK == /\ clock \in SPE..MaxSlot
           /\ st \in [att : [f : BOOLEAN, s : 0..MaxEpoch, t : 0..MaxEpoch], prop : [f : BOOLEAN, v : 0..MaxSlot],
                      accs : SUBSET (1..MaxGen), db : 0..MaxGen, mem : 0..MaxGen, gen : 1..(MaxGen + 1)]
           /\ nfaults \in 0..MaxFaults
+          /\ broken \in [at : {"-", "att", "prop"}, left : 0..MaxPersist] /\ (broken.left = 0 <=> broken.at = "-")
           /\ (Weaken # "noSignLock" => pend = {})
 =============================================================================
